@@ -17,7 +17,10 @@ func InitGenesis(ctx sdk.Context, k keeper.Keeper, data types.GenesisState) {
 			k.SetRewardRule(ctx, pool.Id, r)
 		}
 		k.SetPool(ctx, pool)
-		if !k.Expired(ctx, pool) {
+		// a pool that has not reached its end height yet still awaits its
+		// end-block refund (Expired cannot be asked here: at the end height it
+		// consults the very queue that is being rebuilt)
+		if pool.EndHeight >= ctx.BlockHeight() {
 			k.EnqueueActivePool(ctx, pool.Id, pool.EndHeight)
 		}
 	}
